@@ -81,7 +81,7 @@ TEXTS = {
                     'TLC finds a torn read without it (negative control run on every check); LatchInd.tla: an inductive invariant discharged with Apalache '
                     'shows NoTornRead for any number of versions (negative control: RLock without its guard). On the real code, 16-core stress: writers '
                     'keep (a, b, s) = (k, 2k, "v"k) across three columns of different kinds (also two rows of different blocks in one '
-                    'transaction); readers (QueryAt, Range, filtered Range, point reads nested inside a Range over another block) report the distinct triples read inside one callback (millions '
+                    'transaction), together with a bool f = (k is odd) that is bound into the witness, while the collection grows by a block every few tens of milliseconds; readers (QueryAt, Range, filtered Range, point reads nested inside a Range over another block) report the distinct triples read inside one callback (millions '
                     'of reads per run), each must be a committed version (Ascend readers too: as built they run without the latch and do see torn rows - '
                     'known finding D-ascend-no-latch, excused exactly for them); deterministic probes: with a writer parked inside the logger '
                     'callback a reader of that block must not complete, a reader of another block must; after a merge function has panicked between '
@@ -130,7 +130,7 @@ TEXTS = {
             'note': _NOTE, 'technique': _T},
     'C17': {'text': 'Expire.tla: NoEarlyExpiry (action property), ExpiredGoes (liveness under weak fairness of tick, scan and commit, no '
                     'state constraint) and NoTTLStays are model-checked for 2-3 rows with an extender, strict and as-built. Timed '
-                    'executions of the real vacuum (intervals 1/5/50 ms; rows without TTL, short, long and extended TTLs; inserts, '
+                    'executions of the real vacuum (intervals 1/5/50 ms; rows without TTL, short, long and extended TTLs, in the first block or straddling the first block boundary; inserts, '
                     'extensions and unrelated updates meanwhile; a restored snapshot and a replica with their own vacuum) are validated: '
                     'every removal needs a passed deadline at the in-latch timestamp, rows overdue by more than the slack must be gone, rows '
                     'not due must be there, Extend moves the deadline by exactly its argument (also when the deadline was set by the same transaction or '
